@@ -130,7 +130,8 @@ let ghist f l ops =
   let idx = if sq then Fast.sq_idx l else Fast.cn_idx l in
   let cnt = if sq then Fast.sq_cnt l else (fun _ -> Fast.cn_cnt l) in
   let nextid = ref 0 in
-  let alloc = fun _ -> let r = z_of_int !nextid in incr nextid; r in
+  let shl32 = Z.shift_left Z.one 32 in
+  let alloc = fun _ -> let r = z_of_zarith (Z.mul (Z.of_int !nextid) shl32) in incr nextid; r in   (* segment pointer = id << 32 *)
   let segs = ref (fun _ -> z_of_int (-1)) and n = ref (z_of_int 0) and c = ref (z_of_int 0) in
   let b = Buffer.create 1024 and bad = ref "" in
   let fail o = bad := (match o with GenPrelude.Stuck -> "GEN-STUCK" | GenPrelude.Fuel -> "GEN-FUEL" | _ -> "GEN-EXN") in
@@ -147,15 +148,22 @@ let ghist f l ops =
      | 'k' -> (match Gen_ArrSqrt.coq_ShrinkFit seg idx !segs !n !c with GenPrelude.Ok (_, n') -> n := n' | o -> fail o)
      | 'K' -> (match Gen_ArrSqrt.coq_ShrinkTo seg idx !segs !n !c za with GenPrelude.Ok (_, n') -> n := n' | o -> fail o)
      | 'c' | 'C' -> (match Gen_ArrSqrt.coq_Clear seg idx cnt !segs !n !c (op = 'C') with GenPrelude.Ok ((_, n'), c') -> n := n'; c := c' | o -> fail o)
-     | 'b' -> (* RemoveBack(k) = MOMO_CHECK(k <= mCount); pvDecCount(mCount - k) *)
+     | 'b' -> (* the harness calls RemoveBack only for k <= count (otherwise it throws) *)
        if Z.leq (Z.of_string a) (zarith_of_z !c) then
-         (match Gen_ArrSqrt.pvDecCount seg cnt !segs !n !c (z_of_zarith (Z.sub (zarith_of_z !c) (Z.of_string a))) with
-          | GenPrelude.Ok (_, c') -> c := c' | o -> fail o)
+         (match Gen_ArrSqrt.coq_RemoveBack seg cnt !segs !n !c za with GenPrelude.Ok (_, c') -> c := c' | o -> fail o)
+     | 'n' | 'o' -> (* the harness calls AddBackNogrow only when count < capacity *)
+       if Z.lt (zarith_of_z !c) (zarith_of_z (Gen_ArrSqrt.coq_GetCapacity idx !segs !n !c)) then
+         (match Gen_ArrSqrt.coq_AddBackNogrowCrt seg !segs !n !c with GenPrelude.Ok (_, c') -> c := c' | o -> fail o)
      | _ -> bad := "GEN-BAD-OP");
     if !bad <> "" then Buffer.add_string b !bad else begin
-      let top = if Z.sign (zarith_of_z !n) = 0 then "-1" else string_of_z (!segs (z_of_zarith (Z.pred (zarith_of_z !n)))) in
-      Buffer.add_string b (Printf.sprintf "%s/%s/%s/%s " (string_of_z !c) (string_of_z !n)
-                             (string_of_z (Gen_ArrSqrt.coq_GetCapacity idx !segs !n !c)) top) end end) ops;
+      let top = if Z.sign (zarith_of_z !n) = 0 then "-1"
+                else Z.to_string (Z.shift_right (zarith_of_z (!segs (z_of_zarith (Z.pred (zarith_of_z !n))))) 32) in
+      (* operator[] of the middle element through the generated pvGetItem *)
+      let addr = if Z.sign (zarith_of_z !c) = 0 then "-1" else
+          (match Gen_ArrSqrt.pvGetItem seg !segs !n !c (z_of_zarith (Z.div (zarith_of_z !c) (Z.of_int 2))) with
+           | GenPrelude.Ok a -> string_of_z a | _ -> "GEN-GETITEM-STUCK") in
+      Buffer.add_string b (Printf.sprintf "%s/%s/%s/%s/%s " (string_of_z !c) (string_of_z !n)
+                             (string_of_z (Gen_ArrSqrt.coq_GetCapacity idx !segs !n !c)) top addr) end end) ops;
   Buffer.contents b
 let () = iter_lines (fun line ->
   match words line with
